@@ -265,6 +265,8 @@ impl Transaction {
 
 		// Get the current visible sequence number as our start point.
 		let start_seq_num = core.seq_num();
+		#[cfg(surrealkv_verif)]
+		crate::verif::yieldp::yield_point("txn.loaded", start_seq_num, 0);
 
 		// Register this txn's start_seq with the GC watermark tracker.
 		// Both read-write and write-only txns register here (write-only txns
@@ -273,6 +275,8 @@ impl Transaction {
 		// strictly monotonic, so this load-then-register sequence cannot
 		// cause GC to advance past our start_seq.
 		let txn_guard = Some(core.active_txn_tracker.register(start_seq_num));
+		#[cfg(surrealkv_verif)]
+		crate::verif::yieldp::yield_point("txn.registered", start_seq_num, 0);
 
 		let mut snapshot = None;
 		if !mode.is_write_only() {
